@@ -107,3 +107,23 @@ ghost("used", ["rs", "s"], "rs.slotSecondsUsed.get(s, 0.0)")
 ghost("usage", ["rs", "s"], "ite(s in rs.slotTaskUsage, seqsum(rs.slotTaskUsage[s], 1), 0.0)")
 ghost("LedgerAt", ["rs", "s"], "0 <= usage(rs, s) and usage(rs, s) <= used(rs, s) and used(rs, s) <= D(rs)")
 ghost("Ledger", ["rs"], "forall(s, LedgerAt(rs, s))")
+
+# local time of slot start: project time + zone offset (zoneinfo trusted: A-tz)
+ghost("LT", ["wh", "i", "tz"], "dt(secs(PT(wh.project, i)) + ite(tz is None or some(tz) == '', 0, uf_tzoff(some(tz), secs(PT(wh.project, i)))))")
+ghost("LW", ["wh", "i", "tz"], "LT(wh, i, tz).weekday()")
+ghost("LM", ["wh", "i", "tz"], "LT(wh, i, tz).hour * 60 + LT(wh, i, tz).minute")
+
+
+# ---- calendar view --------------------------------------------------------------------------------------------
+# project default calendar (Mon-Fri 09-17 outside global vacations), as a predicate on an instant
+ghost("InLeaveList", ["lst", "d"],
+      "exists(k, 0, len(lst), lst[k].interval is not None and some(lst[k].interval).start <= d and d < some(lst[k].interval).end)")
+ghost("DefW", ["p", "d"], "not InLeaveList(p.attributes['vacations'], d) and d.weekday() < 5 and 9 <= d.hour and d.hour < 17")
+# what Project.isWorkingTime answers in the current state
+ghost("IsWT", ["p", "i"], "ite(p.scoreboard is None, ite(p.attributes['start'] is None, False, DefW(p, PT(p, i))), "
+                          "some(p.scoreboard).sb[i] is None)", opaque=Bool)
+# functional view of WorkingHours.onShift (proved as WorkingHours.onShift/exact)
+ghost("WHOn", ["wh", "i", "tz"],
+      "ite(not wh._custom_hours_set, IsWT(wh.project, i), ite(wh.project.attributes['start'] is None, False, "
+      "LW(wh, i, tz) in wh._hours and len(wh._hours[LW(wh, i, tz)]) > 0 and Working(wh._hours, LW(wh, i, tz), LM(wh, i, tz))))",
+      opaque=Bool)
